@@ -3,6 +3,7 @@ package main
 // Driver for one long-lived SMT solver process (z3 -in by default).
 
 import (
+	"os"
 	"bufio"
 	"fmt"
 	"io"
@@ -16,19 +17,22 @@ type Solver struct {
 	cmd     *exec.Cmd
 	in      io.WriteCloser
 	out     *bufio.Reader
+	lines   chan string
 	level   int
 	nDef    int
 	script  []string // commands issued at path level (level 1) since path start
 	Queries int
+	Timeouts int
 	Time    time.Duration
 	Errors  []string
 	bin     string
 	timeout int // ms per query
+	seed    int
 	logW    io.Writer
 }
 
-func NewSolver(bin string, timeoutMs int) (*Solver, error) {
-	s := &Solver{bin: bin, timeout: timeoutMs}
+func NewSolver(bin string, timeoutMs int, seed int) (*Solver, error) {
+	s := &Solver{bin: bin, timeout: timeoutMs, seed: seed}
 	if err := s.start(); err != nil {
 		return nil, err
 	}
@@ -57,12 +61,30 @@ func (s *Solver) start() error {
 		return err
 	}
 	s.in = in
+	if p := os.Getenv("GOSMT_LOG"); p != "" && s.logW == nil {
+		f, _ := os.OpenFile(fmt.Sprintf("%s.%d", p, os.Getpid()), os.O_CREATE|os.O_WRONLY|os.O_APPEND, 0o644)
+		s.logW = f
+	}
 	s.out = bufio.NewReaderSize(out, 1<<20)
+	s.lines = make(chan string, 64)
+	go func(r *bufio.Reader, ch chan string) {
+		for {
+			line, err := r.ReadString('\n')
+			if err != nil {
+				close(ch)
+				return
+			}
+			ch <- strings.TrimSpace(line)
+		}
+	}(s.out, s.lines)
 	s.level = 0
 	if strings.Contains(s.bin, "cvc5") {
 		s.send("(set-logic ALL)")
 	}
 	s.send("(set-option :produce-models true)")
+	if s.seed != 0 && !strings.Contains(s.bin, "cvc5") {
+		s.send(fmt.Sprintf("(set-option :smt.random_seed %d)", s.seed))
+	}
 	return nil
 }
 
@@ -120,6 +142,14 @@ func (s *Solver) Declare(t *Term) {
 			s.cmd1(fmt.Sprintf("(assert (<= %s %s))", t.name, smtInt(t.hi)))
 		}
 	}
+	if t.sort == SReal {
+		if t.lo != nil {
+			s.cmd1(fmt.Sprintf("(assert (>= %s %s))", t.name, smtRat(new(big.Rat).SetInt(t.lo))))
+		}
+		if t.hi != nil {
+			s.cmd1(fmt.Sprintf("(assert (<= %s %s))", t.name, smtRat(new(big.Rat).SetInt(t.hi))))
+		}
+	}
 }
 
 // Text returns SMT text for t, emitting define-funs for large shared subterms.
@@ -170,16 +200,57 @@ const (
 func (r SatResult) String() string { return [...]string{"unsat", "sat", "unknown"}[r] }
 
 func (s *Solver) readLine() string {
-	line, err := s.out.ReadString('\n')
-	if err != nil {
-		panic(pathAbort{"solver-died", err.Error()})
+	// hard watchdog: the solver's own soft timeout is not always honoured (nlsat)
+	limit := time.Duration(s.timeout)*time.Millisecond + 1500*time.Millisecond
+	select {
+	case line, ok := <-s.lines:
+		if !ok {
+			s.Close()
+			s.cmd = nil
+			panic(pathAbort{"solver-unknown", "solver process died"})
+		}
+		return line
+	case <-time.After(limit):
+		s.Close()
+		s.cmd = nil
+		panic(solverTimeout{})
 	}
-	return strings.TrimSpace(line)
+}
+
+type solverTimeout struct{}
+
+// restartReplay starts a fresh solver process and replays the path-level script, so that the
+// path can continue after a query had to be killed.
+func (s *Solver) restartReplay() {
+	s.Close()
+	if err := s.start(); err != nil {
+		panic(pathAbort{"solver-unknown", "cannot restart solver: " + err.Error()})
+	}
+	s.send("(push 1)")
+	s.level = 1
+	for _, l := range s.script {
+		s.send(l)
+	}
 }
 
 // CheckWith decides satisfiability of (path condition AND extra...). If wantModel != nil
 // and the result is sat, the values of the given variable names are returned.
-func (s *Solver) CheckWith(extra []*Term, wantModel []string) (SatResult, map[string]string) {
+func (s *Solver) CheckWith(extra []*Term, wantModel []string) (res SatResult, model map[string]string) {
+	defer func() {
+		if r := recover(); r != nil {
+			if _, ok := r.(solverTimeout); ok {
+				s.Timeouts++
+				s.restartReplay()
+				res, model = Unknown, nil
+				return
+			}
+			panic(r)
+		}
+	}()
+	return s.checkWith(extra, wantModel)
+}
+
+func (s *Solver) checkWith(extra []*Term, wantModel []string) (SatResult, map[string]string) {
 	texts := make([]string, len(extra))
 	for i, e := range extra {
 		texts[i] = s.Text(e)
@@ -219,6 +290,9 @@ func (s *Solver) CheckWith(extra []*Term, wantModel []string) (SatResult, map[st
 	}
 	s.send("(pop 1)")
 	s.Time += time.Since(t0)
+	if s.logW != nil {
+		fmt.Fprintf(s.logW, "; -> %s in %.3fs\n", res, time.Since(t0).Seconds())
+	}
 	if len(s.Errors) > 0 {
 		// any error line makes the answer inconclusive
 		errs := strings.Join(s.Errors, "; ")
@@ -238,7 +312,7 @@ func (s *Solver) getValues(names []string) map[string]string {
 		}
 		s.send("(get-value (" + strings.Join(names[i:j], " ") + "))")
 		txt := s.readSexp()
-		parseValues(txt, model)
+		parseValuesPos(txt, names[i:j], model)
 	}
 	return model
 }
@@ -380,6 +454,34 @@ func evalNum(e *sexp) (*big.Rat, bool) {
 	return nil, false
 }
 
+// parseValuesPos assigns the i-th answered pair to names[i] (solvers may reprint the term).
+func parseValuesPos(txt string, names []string, model map[string]string) {
+	pos := 0
+	e := parseSexp(txt, &pos)
+	if e == nil || e.isAtom() {
+		return
+	}
+	for i, pair := range e.list {
+		if i >= len(names) || pair.isAtom() || len(pair.list) != 2 {
+			continue
+		}
+		v := pair.list[1]
+		if v.isAtom() && (v.atom == "true" || v.atom == "false") {
+			model[names[i]] = v.atom
+			continue
+		}
+		if r, ok := evalNum(v); ok {
+			if r.IsInt() {
+				model[names[i]] = r.Num().String()
+			} else {
+				model[names[i]] = r.String()
+			}
+			continue
+		}
+		model[names[i]] = "?" + sexpString(v)
+	}
+}
+
 func parseValues(txt string, model map[string]string) {
 	pos := 0
 	e := parseSexp(txt, &pos)
@@ -437,6 +539,54 @@ func (s *Solver) Standalone(extra []*Term) string {
 	}
 	sb.WriteString("(check-sat)\n")
 	return sb.String()
+}
+
+// OneShotModel runs script (ending in check-sat) plus a get-value for names with another solver.
+func OneShotModel(bin, script string, names []string, timeoutS int) (SatResult, map[string]string, time.Duration) {
+	if len(names) > 0 {
+		script += "(get-value (" + strings.Join(names, " ") + "))\n"
+	}
+	var args []string
+	if strings.Contains(bin, "cvc5") {
+		args = []string{"--lang=smt2", "--produce-models", fmt.Sprintf("--tlimit=%d", timeoutS*1000)}
+	} else {
+		args = []string{"-in", fmt.Sprintf("-T:%d", timeoutS)}
+	}
+	cmd := exec.Command(bin, args...)
+	cmd.Stdin = strings.NewReader("(set-option :produce-models true)\n" + script)
+	t0 := time.Now()
+	done := make(chan struct{})
+	var out []byte
+	go func() { out, _ = cmd.CombinedOutput(); close(done) }()
+	select {
+	case <-done:
+	case <-time.After(time.Duration(timeoutS+5) * time.Second):
+		if cmd.Process != nil {
+			cmd.Process.Kill()
+		}
+		<-done
+	}
+	d := time.Since(t0)
+	txt := string(out)
+	lines := strings.SplitN(strings.TrimSpace(txt), "\n", 2)
+	first := strings.TrimSpace(lines[0])
+	switch first {
+	case "unsat":
+		if strings.Contains(txt, "(error") && !strings.Contains(txt, "model is not available") {
+			return Unknown, nil, d
+		}
+		return Unsat, nil, d
+	case "sat":
+		model := map[string]string{}
+		if len(lines) > 1 {
+			if strings.Contains(lines[1], "(error") {
+				return Unknown, nil, d
+			}
+			parseValuesPos(lines[1], names, model)
+		}
+		return Sat, model, d
+	}
+	return Unknown, nil, d
 }
 
 // RunOneShot runs a standalone script with another solver binary.
